@@ -62,6 +62,15 @@ CLAIMED = {
          "same definitions run at binary64 and are compared bit-exactly with the implementation, including exact ties distance == radius."),
    ref="5 C14",
    note="Real-arithmetic theorems; rounding of r*r and x-c for non-dyadic values not verified (bit-exact correspondence covers it empirically); area -> pi r^2 only tested."),
+ "C19": dict(
+   technique="Coq proof over a hand model (reusing the DFT library) + vm_compute correspondence",
+   text=("Machine-checked proofs that the structure-function estimator is 0 at lag 0 and the mean squared lag difference elsewhere, is exact "
+         "on a ramp (a^2 (j step)^2 for every size, step and column offsets) and quadratic in amplitude; that the temporal power spectrum "
+         "(squared modulus of the DFT of each centroid series) is quadratic in amplitude and satisfies Parseval; that the frequency axis is "
+         "k rate/n. The model runs at binary64 against the implementation (leading axes, odd/even frame counts). Two defects found by this "
+         "check were repaired (fix commits 26b50a5, 3c15b09)."),
+   ref="5 C19",
+   note="Hand model coq/model/Estim.v tied by correspondence; Reals axioms; 'follows the analytic structure function' and peak location only tested."),
 }
 NOT_YET = {}
 ALL = ["C%02d" % i for i in range(1, 21)]
